@@ -445,6 +445,36 @@ func ExpressionsEqual(a, b Expression) bool {
 		}
 
 		return true
+
+	case *FloatingPointLiteralExpression:
+		tb, ok := b.(*FloatingPointLiteralExpression)
+		if !ok {
+			return false
+		}
+		return TypesEqual(ta.ResolvedType, tb.ResolvedType) && ta.Value == tb.Value
+
+	case *UnaryExpression:
+		tb, ok := b.(*UnaryExpression)
+		if !ok {
+			return false
+		}
+		return ta.Operator == tb.Operator && ExpressionsEqual(ta.Expression, tb.Expression)
+
+	case *BinaryExpression:
+		tb, ok := b.(*BinaryExpression)
+		if !ok {
+			return false
+		}
+		return ta.Operator == tb.Operator && TypesEqual(ta.ResolvedType, tb.ResolvedType) &&
+			ExpressionsEqual(ta.Left, tb.Left) && ExpressionsEqual(ta.Right, tb.Right)
+
+	case *TypeConversionExpression:
+		tb, ok := b.(*TypeConversionExpression)
+		if !ok {
+			return false
+		}
+		return TypesEqual(ta.Type, tb.Type) && ExpressionsEqual(ta.Expression, tb.Expression)
+
 	default:
 		panic(fmt.Sprintf("unexpected type %T", ta))
 	}
